@@ -427,8 +427,56 @@ let run_cluster (path : string) =
       Printf.printf "D%s\n" (cluster_dump !c)) cs.ops;
     print_string "E\n") (read_cases path)
 
+(* ---------- schedules ---------- *)
+let run_sched (path : string) =
+  List.iter (fun c ->
+    Printf.printf "C %s\n" c.id;
+    let role = role_of_tok (match c.header with r :: _ -> r | [] -> "P") in
+    let n = ref (init_node (cl_of_string "nun") (cl_of_string "pwd") (cl_of_string "n0:3014") (n_of_int 1000) role clock0) in
+    Hashtbl.reset notices; Hashtbl.reset closed_sessions;
+    List.iter (fun op ->
+      let res = match op with
+        | ["conn"] -> let (n', id) = connect !n in n := n'; Printf.sprintf "Conn %d" (int_of_nat id)
+        | ["cmd"; sid; line] ->
+          let (n', r) = step !n (nat_of_int (int_of_string sid)) (cl_of_string (unhex line)) in
+          n := n'; resp_str r
+        | ["disc"; sid] -> n := disconnect !n (nat_of_int (int_of_string sid)); Hashtbl.replace closed_sessions (int_of_string sid) (); "Left"
+        | "par" :: rest ->
+          let rec split acc = function
+            | "--" :: sch -> (List.rev acc, sch)
+            | x :: r -> split (x :: acc) r
+            | [] -> (List.rev acc, []) in
+          let (specs, sch) = split [] rest in
+          (* optional hints: tokens "h<sid>=<hexkey>.<hexkey>" (one per unwatch-all of that session, in order) *)
+          let hints_of sid = List.filter_map (fun tok ->
+              let pre = "h" ^ string_of_int sid ^ "=" in
+              if starts_with_s tok pre then
+                let body = String.sub tok (String.length pre) (String.length tok - String.length pre) in
+                Some (if body = "" then [] else List.map (fun h -> cl_of_string (unhex h)) (String.split_on_char '.' body))
+              else None) specs in
+          let ts = List.filter_map (fun spec ->
+              if String.length spec > 0 && spec.[0] = 'h' then None else
+              match String.index_opt spec ':' with
+              | Some i ->
+                let sid = int_of_string (String.sub spec 0 i) in
+                let lines = String.split_on_char ',' (String.sub spec (i + 1) (String.length spec - i - 1)) in
+                Some (new_thread (nat_of_int sid) (List.map (fun h -> cl_of_string (unhex h)) lines) (hints_of sid))
+              | None -> failwith "bad par spec") specs in
+          let (n', ts') = run_par !n ts (List.map (fun x -> nat_of_int (int_of_string x)) sch) in
+          n := n';
+          "Par " ^ String.concat " " (List.map (fun t ->
+              Printf.sprintf "%d:[%s]<%s>" (int_of_nat t.t_sid) (String.concat ";" (List.map resp_str t.t_replies))
+                (String.concat "," (List.map string_of_cl t.t_trace))) ts')
+        | _ -> failwith "bad sched op" in
+      let inb = node_inboxes n in
+      let q = node_queues n in
+      Printf.printf "%s | %s | %s\n" res inb q;
+      Printf.printf "D %s\n" (node_dump false !n)) c.ops;
+    print_string "E\n") (read_cases path)
+
 let () =
   match Array.to_list Sys.argv with
+  | [_; "sched"; path] -> run_sched path
   | [_; "cluster"; path] -> run_cluster path
   | [_; "disk"; path] -> run_disk path
   | [_; "node"; path] -> run_node path
